@@ -174,7 +174,39 @@ func ruleCov(c *Ctx) []*Ob {
 	for _, p := range pairs {
 		fb := c.Fn(p.b)
 		covB := map[string]bool{}
-		if p.zeroOfB {
+		if p.b == "(*segmentStack).Stats" {
+			// the gauge is whatever statsSegmentsLOCKED calls on the section stacks (and what that calls on segmentStack)
+			seenF := map[*ssa.Function]bool{}
+			var add func(f *ssa.Function)
+			add = func(f *ssa.Function) {
+				if seenF[f] {
+					return
+				}
+				seenF[f] = true
+				for k := range fieldsRead(f, p.tn, nil) {
+					covB[k] = true
+				}
+				eachInstr(f, func(i ssa.Instruction) {
+					if call, ok := i.(*ssa.Call); ok {
+						if h := call.Call.StaticCallee(); h != nil && h.Pkg == c.Moss && h.Signature.Recv() != nil && typeName(h.Signature.Recv().Type()) == p.tn {
+							add(h)
+						}
+					}
+				})
+			}
+			ssl := c.Fn("(*collection).statsSegmentsLOCKED")
+			eachInstr(ssl, func(i ssa.Instruction) {
+				if call, ok := i.(*ssa.Call); ok {
+					if h := call.Call.StaticCallee(); h != nil && h.Pkg == c.Moss && h.Signature.Recv() != nil && typeName(h.Signature.Recv().Type()) == p.tn {
+						add(h)
+					}
+				}
+			})
+			if len(seenF) == 0 {
+				o.add(c.fname(ssl), "gauge function", c.pos(ssl.Pos()), false, "anchor lost: statsSegmentsLOCKED no longer asks the section stacks for statistics")
+				continue
+			}
+		} else if p.zeroOfB {
 			parts := zeroRegion(c, fb)
 			if parts == nil {
 				o.add(p.b, "zero branch", c.pos(fb.Pos()), false, "anchor lost: no `refs <= 0` branch found in the release function")
@@ -205,11 +237,15 @@ func ruleCov(c *Ctx) []*Ob {
 				aname = "snapshot/appendChildLLSnapshot/merge"
 			}
 			construct := fmt.Sprintf("coverage of %s includes %s", p.tn, fld)
+			bname := p.b
+			if p.b == "(*segmentStack).Stats" {
+				bname = "the gauge functions statsSegmentsLOCKED calls"
+			}
 			if covB[fld] {
-				o.add(p.b, construct, c.pos(fb.Pos()), true, fmt.Sprintf("%s reads %s like %s does", p.b, fld, aname))
+				o.add(p.b, construct, c.pos(fb.Pos()), true, fmt.Sprintf("%s read %s like %s does", bname, fld, aname))
 			} else {
 				o.add(p.b, construct, c.pos(fb.Pos()), false,
-					fmt.Sprintf("%s reads %s but %s only reads %s: %s", aname, fld, p.b, keys(covB), p.what))
+					fmt.Sprintf("%s reads %s but %s only read %s: %s", aname, fld, bname, keys(covB), p.what))
 			}
 		}
 	}
@@ -220,12 +256,45 @@ var sectionFields = map[string]bool{"stackDirtyTop": true, "stackDirtyMid": true
 
 func ruleCov2(c *Ctx) []*Ob {
 	o := newObs(c, "COV-2")
-	isEmpty := c.Fn("(*segmentStack).isEmpty")
-	for _, f := range c.Funcs {
-		if f.Signature.Recv() == nil || typeName(f.Signature.Recv().Type()) != "collection" {
-			if f.Parent() == nil || root(f).Signature.Recv() == nil || typeName(root(f).Signature.Recv().Type()) != "collection" {
-				continue
+	// does segmentStack method h (transitively, within segmentStack methods) read childSegStacks?
+	aware := map[*ssa.Function]int{}
+	var childrenAware func(h *ssa.Function) bool
+	childrenAware = func(h *ssa.Function) bool {
+		switch aware[h] {
+		case 1:
+			return true
+		case 2, 3:
+			return false
+		}
+		aware[h] = 3
+		ok := fieldsRead(h, "segmentStack", nil)["childSegStacks"]
+		if !ok {
+			eachInstr(h, func(i ssa.Instruction) {
+				if call, isCall := i.(*ssa.Call); isCall && !ok {
+					if g := call.Call.StaticCallee(); g != nil && g.Pkg == c.Moss && g.Signature.Recv() != nil && typeName(g.Signature.Recv().Type()) == "segmentStack" {
+						ok = childrenAware(g)
+					}
+				}
+			})
+		}
+		if ok {
+			aware[h] = 1
+		} else {
+			aware[h] = 2
+		}
+		return ok
+	}
+	sectionOfStack := func(v ssa.Value) string {
+		for _, og := range origins(v) {
+			if fs, _ := loadedField(og); fs != nil && sectionFields[fs.Name()] {
+				return fs.Name()
 			}
+		}
+		return ""
+	}
+	for _, f := range c.Funcs {
+		if !collectionMethod(f) {
+			continue
 		}
 		fn := c.fname(f)
 		for _, b := range f.Blocks {
@@ -233,58 +302,53 @@ func ruleCov2(c *Ctx) []*Ob {
 			if !ok {
 				continue
 			}
-			cmp, ok := iff.Cond.(*ssa.BinOp)
-			if !ok {
-				continue
-			}
-			// one side is len(X.a) with X loaded from a section field
-			var sect string
-			for _, opnd := range []ssa.Value{cmp.X, cmp.Y} {
-				call, ok := opnd.(*ssa.Call)
-				if !ok {
+			// the measures of a section stack this condition is built from
+			var measures []ssa.Value
+			cond := iff.Cond
+			for {
+				if u, isU := cond.(*ssa.UnOp); isU && u.Op == token.NOT {
+					cond = u.X
 					continue
 				}
-				bi, ok := call.Call.Value.(*ssa.Builtin)
-				if !ok || bi.Name() != "len" {
-					continue
-				}
-				fa, base := loadedField(call.Call.Args[0])
-				if fa == nil || fa.Name() != "a" || typeName(base.Type()) != "segmentStack" {
-					continue
-				}
-				for _, og := range origins(base) {
-					if fs, _ := loadedField(og); fs != nil && sectionFields[fs.Name()] {
-						sect = fs.Name()
-					}
-				}
+				break
 			}
-			if sect == "" {
-				continue
-			}
-			// children-aware: the function also consults isEmpty / childSegStacks of that section
-			aware := false
-			eachInstr(f, func(i ssa.Instruction) {
-				if call, ok := i.(*ssa.Call); ok && call.Call.StaticCallee() == isEmpty {
-					for _, og := range origins(call.Call.Args[0]) {
-						if fs, _ := loadedField(og); fs != nil && fs.Name() == sect {
-							aware = true
-						}
-					}
-				}
-			})
-			for _, a := range fieldAccesses(f, func(v *types.Var) bool { return v.Name() == "childSegStacks" }) {
-				for _, og := range origins(a.Base) {
-					if fs, _ := loadedField(og); fs != nil && fs.Name() == sect {
-						aware = true
-					}
-				}
-			}
-			construct := fmt.Sprintf("branch on len(%s.a)", sect)
-			if aware {
-				o.add(fn, construct, c.instrPos(iff), true, "the function also consults the children of "+sect)
+			if cmp, isB := cond.(*ssa.BinOp); isB {
+				measures = append(measures, cmp.X, cmp.Y)
 			} else {
-				o.add(fn, construct, c.instrPos(iff), false,
-					"the predicate looks only at "+sect+".a: a batch that only touches child collections leaves a unchanged, so it is invisible to this test")
+				measures = append(measures, cond)
+			}
+			for _, mv := range measures {
+				call, isCall := mv.(*ssa.Call)
+				if !isCall {
+					continue
+				}
+				if bi, isBi := call.Call.Value.(*ssa.Builtin); isBi && bi.Name() == "len" {
+					fa, base := loadedField(call.Call.Args[0])
+					if fa == nil || fa.Name() != "a" || typeName(base.Type()) != "segmentStack" {
+						continue
+					}
+					sect := sectionOfStack(base)
+					if sect == "" {
+						continue
+					}
+					o.add(fn, fmt.Sprintf("branch on len(%s.a)", sect), c.instrPos(iff), false,
+						"the predicate looks only at "+sect+".a: a batch that only touches child collections leaves a unchanged, so it is invisible to this test")
+					continue
+				}
+				h := call.Call.StaticCallee()
+				if h == nil || h.Pkg != c.Moss || h.Signature.Recv() == nil || typeName(h.Signature.Recv().Type()) != "segmentStack" || len(call.Call.Args) == 0 {
+					continue
+				}
+				sect := sectionOfStack(call.Call.Args[0])
+				if sect == "" {
+					continue
+				}
+				okA := childrenAware(h)
+				why := h.Name() + "() looks at the stack's children too"
+				if !okA {
+					why = h.Name() + "() never reads childSegStacks: a batch that only touches child collections is invisible to this test"
+				}
+				o.add(fn, fmt.Sprintf("branch on %s.%s()", sect, h.Name()), c.instrPos(iff), okA, why)
 			}
 		}
 	}
@@ -408,6 +472,21 @@ func ruleRef3(c *Ctx) []*Ob {
 			construct := "zero branch releases " + r.tn + "." + fld
 			if found {
 				o.add(r.fn, construct, c.instrPos(at), true, "released when the count reaches zero")
+				// and cleared, like in every sibling: moss over-decrements some stacks (idle merger), so a
+				// field that still points at what was released would be released a second time
+				cleared := false
+				for _, part := range parts {
+					for _, a := range fieldAccesses(part.f, func(v *types.Var) bool { return v.Name() == fld }) {
+						if a.Kind == "store" && isNilConst(a.Val) && typeName(a.Base.Type()) == r.tn && part.in(a.Instr.Block()) {
+							cleared = true
+						}
+					}
+				}
+				whyc := "the field is set to nil after its release"
+				if !cleared {
+					whyc = "the released " + r.tn + "." + fld + " is not cleared although every sibling release function clears what it released: a later over-decrement (the idle merger closes an empty stack more often than it references it) releases it again, taking a reference that belongs to another holder"
+				}
+				o.add(r.fn, "zero branch clears "+r.tn+"."+fld, c.instrPos(at), cleared, whyc)
 			} else {
 				o.add(r.fn, construct, c.pos(f0.Pos()), false,
 					"when the last reference goes, "+r.tn+"."+fld+" is not released: the resource below it leaks (mapping / descriptor / lower-level snapshot stays open)")
